@@ -466,7 +466,34 @@ def values_to_json(arr):
     return out
 
 
+class Lineage(list):
+    """Training lineage: the fit chunk and later update chunks.  ``overlap`` says that
+    some update chunk re-sent index labels already seen (a sliding window, revised
+    values): "old and new data combined" is then the union of the labels with the newer
+    values winning, in index order (pandas' combine_first, which is also what the
+    property's anchor names as the mechanism)."""
+
+    overlap = False
+
+
 def concat_lineage(chunks):
     if len(chunks) == 1:
         return chunks[0]
+    if getattr(chunks, "overlap", False):
+        comb = chunks[0]
+        for ch in chunks[1:]:
+            comb = ch.combine_first(comb)
+        return comb
     return pd.concat(chunks)
+
+
+def alt_combination(chunks):
+    """The same combined data, put together another way (other memory layout)."""
+    if getattr(chunks, "overlap", False):
+        comb = pd.concat(list(chunks))
+        comb = comb[~comb.index.duplicated(keep="last")].sort_index()
+        return comb
+    comb = chunks[0]
+    for ch in chunks[1:]:
+        comb = ch.combine_first(comb)
+    return comb
